@@ -27,7 +27,8 @@ func init() {
 			"(accepted/rejected, Error() with trace, index, line, quote, JSON bytes) must be byte-identical; a subset is re-run while 15 other goroutines process other projects; " +
 			"the driver then replays a fixed case list in several fresh processes (different GOMAXPROCS) and compares fingerprints across processes. " +
 			"families: fixture corpus; generated documents with >=2 simultaneous faults of one kind or >=3 entries in every internally hashed collection (macros, enum rules, path parameters, tags, similar paths, type tables), " +
-			"regex bodies with and without the fixed-seed option. distinct_nontrivial = distinct (fault-kind set | outcome class) among documents with >=2 simultaneous faults or >=3 hashed entries",
+			"regex bodies with and without the fixed-seed option; complete projects with 2-4 faults of different final validations (the last stage of the compiler); " +
+			"the same project under a file name that was used before for other texts; a healthy graph of user types processed before and after rejected versions of itself (what a failed project leaves behind must not matter). distinct_nontrivial = distinct (fault-kind set | outcome class) among documents with >=2 simultaneous faults or >=3 hashed entries",
 		Assumptions: []string{
 			"'all map-iteration orders' is sampled by repetition: a k-way choice hidden behind a map survives K repetitions with probability about (1/k)^(K-1)",
 		},
